@@ -110,7 +110,7 @@ func TestReferenceListsExamples(t *testing.T) {
 	m := runListsModel(body, false)
 	want := map[string]string{"a": "1", "b": "2", "b1": "2.1", "b2": "2.2", "b2x": "2.2.1", "b3": "2.3", "c": "3", "d": "1"}
 	for id, w := range want {
-		if got := m.texts[id+"::before"]; got != "[0|0|"+w+"]" {
+		if got := m.texts[id+"::before"]; got != "[0|0|"+w+"|0|0]" {
 			t.Errorf("%s: %q want list-item %s", id, got, w)
 		}
 	}
@@ -136,7 +136,7 @@ func TestReferenceListsExamples(t *testing.T) {
 	// h4 is a following sibling of w, in scope of w's instance: increments it: 2.9
 	want["h4"] = "[2.9|1|0]"
 	for id, w := range want {
-		if got := m.texts[id+"::before"]; got != w {
+		if got := m.texts[id+"::before"]; !strings.HasPrefix(got, strings.TrimSuffix(w, "]")+"|") {
 			t.Errorf("%s: %q want %q", id, got, w)
 		}
 	}
